@@ -325,6 +325,22 @@ def build_ih(tuples, route='from_labels', go=False, kinds=None):
             grp = list(grp)
             items.append((grp[0][0], sf.Index([t[1] for t in grp])))
         return cls.from_index_items(items)
+    if route == 'from_index_items_auto':
+        # leaves are AUTOMATIC integer indices (no label map: labels are positions), as Series.from_concat_items of
+        # default-indexed Series builds them; requires is_auto_leaf(tuples)
+        items = []
+        for k, grp in itertools.groupby(tuples, key=lambda t: H(t[0])):
+            grp = list(grp)
+            items.append((grp[0][0], sf.Index(range(len(grp)), loc_is_iloc=True)))
+        return cls.from_index_items(items)
+    if route == 'concat_items_auto':
+        import numpy as np
+        items = []
+        for k, grp in itertools.groupby(tuples, key=lambda t: H(t[0])):
+            grp = list(grp)
+            items.append((grp[0][0], sf.Series(np.arange(len(grp)))))
+        ih = sf.Series.from_concat_items(items).index
+        return cls(ih) if go else ih
     if route == 'from_product':
         levels = []
         for d in range(len(tuples[0])):
@@ -483,6 +499,28 @@ def rand_grow_history(rng, tuples, kinds, steps):
                 ops.append(['ex', [tok(t) for t in other]])
                 cur += other
     return ops
+
+
+def is_auto_leaf(tuples):
+    """depth 2, and under every outer label the inner labels are exactly the ints 0..k-1 in order"""
+    if not tuples or len(tuples[0]) != 2:
+        return False
+    for k, grp in itertools.groupby(tuples, key=lambda t: H(t[0])):
+        inner = [t[1] for t in grp]
+        if any(type(v) is not int for v in inner) or inner != list(range(len(inner))):
+            return False
+    return True
+
+
+def auto_leaf_tuples(rng, max_groups=4, max_size=4):
+    """tokens of a depth-2 tree whose leaves hold 0..k-1 (leaf sizes differ, so a label held by one leaf is absent from another)"""
+    outer_kind = rng.choice('si')
+    outs = rng.sample(LEVEL_POOLS[outer_kind], rng.randint(1, min(max_groups, len(LEVEL_POOLS[outer_kind]))))
+    tups = []
+    for o in outs:
+        for i in range(rng.randint(1, max_size)):
+            tups.append((o, i))
+    return [tok(t) for t in tups], [outer_kind, 'i']
 
 
 def is_product(hts):
